@@ -42,10 +42,19 @@ static int do_sizes() {
 
 // raw memory callbacks of the test pool
 static std::vector<std::pair<char*, size_t>> g_regions; static long g_raw_allocs = 0, g_raw_frees = 0, g_fail_at = -1, g_bad_free = 0;
+static long g_fixed_off = -1;      // >= 0: the next raw request is answered with a 2 MB buffer that starts this many bytes above a 1 MB boundary (fixed pools)
 static void* raw_alloc(intptr_t, size_t& bytes) {
     long k = g_raw_allocs++;
     if (k == g_fail_at) return nullptr;
     void* p = nullptr;
+    if (g_fixed_off >= 0) {
+        if (posix_memalign(&p, 1 << 20, (4 << 20))) return nullptr;
+        bytes = 2 << 20;
+        char* q = (char*)p + g_fixed_off;
+        g_regions.push_back({q, bytes});
+        g_fixed_off = -1;
+        return q;
+    }
     if (posix_memalign(&p, 1 << 20, bytes)) return nullptr;
     g_regions.push_back({(char*)p, bytes});
     return p;
@@ -172,6 +181,7 @@ static int do_pool() {
         wd.arm(&o);
         g_regions.clear(); g_raw_allocs = g_raw_frees = 0; g_bad_free = 0;
         bool fixed = c[0] != 0; g_fail_at = (long)c[1];
+        long fixed_off = c[0] >= 2 ? ((long)c[0] - 2) * 512 : -1;     // fixed >= 2: 2 MB buffer at an offset of (fixed-2)*512 bytes from a 1 MB boundary
         rml::MemoryPool* pool = nullptr; rml::MemoryPool* other = nullptr;
         rml::MemPoolPolicy pol(raw_alloc, fixed ? nullptr : raw_free, 0, fixed);
         rml::MemPoolPolicy pol2(raw_alloc, raw_free);
@@ -179,7 +189,9 @@ static int do_pool() {
         rml::pool_create_v1(7, &pol2, &other);       // a second pool alive at the same time
         void* foreign = rml::pool_malloc(other, 100);
         long raw_before = g_raw_allocs; g_fail_at = fail_save >= 0 ? fail_save + raw_before : -1;
+        g_fixed_off = fixed_off;
         rml::MemPoolError e = rml::pool_create_v1(3, &pol, &pool);
+        g_fixed_off = -1;
         int created = (e == rml::POOL_OK && pool) ? 1 : 0;
         o.word("CREATED"); o.put(created);
         std::vector<void*> slots; std::map<char*, std::pair<size_t, unsigned char>> live; int corrupt = 0, outside = 0, overlap = 0, ident_bad = 0;
